@@ -14,6 +14,8 @@ import Proofs.Lemmas.Encode
 import Proofs.Props.C04
 import Proofs.Lemmas.Router.Rp16_Emittable
 import Proofs.Lemmas.Router.Rp17_EmittableInv
+import Proofs.Lemmas.Router.Rp18_Ibuf
+import Proofs.Lemmas.Router.Rp18_Fits
 namespace C20
 open Encode Codec Admission
 
@@ -326,5 +328,129 @@ example : Router.ConnsOk (Router.init ⟨10, 1024, 2, 10, .roundRobin⟩) ∧ Ro
     Router.OpOkC (.connect ⟨0, "a", true, false, 10, none⟩) = true :=
   ⟨fun j c h => by simp [Router.getConn, Router.init, Router.Slab.get?] at h,
    fun l p hp => by simp [Router.getLink, Router.init] at hp, rfl⟩
+
+/-! ### round 12: the commit-log-contents invariant (item (1) of the list above; also `IbufOk` and item (3) over runs)
+
+`Router.LogsOk n s`: every publish stored in a commit log of `s.datalog`, every retained message
+(`Router.StoredP n`: the `extra`-independent part `Router.StoredCore` of `StoredOk` — no alias, no subscription
+identifiers, u16 packet id, 16-bit topic length —, QoS ≤ 2, payload length within the optional bound `n`), every
+QoS 2 publish recorded in an ack log until its PUBREL (`Router.InP n`: in input range; the alias is still on it),
+every topic in a connection's alias table (16-bit length: a later publish with an empty topic takes it), every
+stored will (`Router.WillP n`). Input range: `Router.OpOkD n` = `OpOkC` + payload of a pushed PUBLISH within `n`
++ the will of a CONNECT in the range of its Rust field types (QoS ≤ 2, 16-bit topic length) with payload within
+`n`. NEW relative to `OpOk` / `OpOkC`: the model does not bound payload sizes at `push`, so `FitsForward` cannot
+be an invariant without the bound (`n = some m`); and `OpOkC` says nothing about wills. `n = none` drops the bound.
+`extra` (the pass-through properties) is not in the model — `Pub.hasProps` records only whether there are any —,
+so `StoredOk p extra` is obtained from `StoredP` under `p.hasProps = true ∨ extra = []`. -/
+
+/-- C20 (stage 1, step form): one step whose op is in range, taken while the waiting packets are in range,
+    keeps everything stored in range. No reachability hypothesis. -/
+theorem stored_in_range_step {n : Option Nat} {s s' : Router.RState} {ch : List Router.Choice} {op : Router.Op}
+    {out : Router.Out} (h : Router.LogsOk n s) (hib : Router.IbufOkD n s) (hop : Router.OpOkD n op = true)
+    (hs : Router.step { s with oracle := ch } op = .ok (s', out)) : Router.LogsOk n s' ∧ Router.IbufOkD n s' :=
+  ⟨Router.step_logsOk h hib hop hs, Router.step_ibufOkD hib hop hs⟩
+
+/-- the same without a payload bound: the hypotheses are those of `connection_hypotheses_preserved_partial`
+    (`IbufOk`, `OpOkC`) and the range of the will of a CONNECT -/
+theorem stored_in_range_step_unbounded {s s' : Router.RState} {ch : List Router.Choice} {op : Router.Op}
+    {out : Router.Out} (h : Router.LogsOk none s) (hib : Router.IbufOk s) (hop : Router.OpOkC op = true)
+    (hwill : ∀ spec w, op = .connect spec → spec.will = some w → w.qos ≤ 2 ∧ w.topic.length ≤ 65535)
+    (hs : Router.step { s with oracle := ch } op = .ok (s', out)) : Router.LogsOk none s' :=
+  Router.step_logsOk_none h hib hop hwill hs
+
+/-- C20 (stages 1 and 3, over runs): after every error-free run from the initial state all of whose ops are in
+    range, everything stored is in range (`LogsOk`), every waiting packet is in range (`IbufOkD`, hence
+    `IbufOk` — the hypothesis `connection_hypotheses_preserved_partial` left open), and every connection
+    satisfies the connection-side hypotheses (`ConnsOk`) -/
+theorem stored_in_range_of_run {n : Option Nat} {cfg : Router.Config} {ops : List (Router.Op × List Router.Choice)}
+    {s : Router.RState} (hok : Router.OpsOkD n ops) (h : Router.run (Router.init cfg) ops = .ok s) :
+    Router.Reachable cfg s ∧ Router.LogsOk n s ∧ Router.IbufOkD n s ∧ Router.ConnsOk s :=
+  Router.inv_of_run hok h
+
+/-- C20 (what a sweep reads): a sweep for a live connection either leaves every link buffer as it is, or is the
+    push phase `fdPush` — which appends `(fdOut c req' pubs).2` (and possibly `Unschedule`) to the connection's
+    link — for a list `pubs` (the retained replay, then the entries `readv` returned) of stored publishes -/
+theorem sweep_reads_stored {n : Option Nat} {s s1 : Router.RState} {id : Nat} {c : Router.Conn}
+    {req req1 : Router.DataRequest} {st : Router.ConsumeStatus} (h : Router.LogsOk n s)
+    (hc : Router.getConn s id = some c) (hf : Router.forwardDeviceData s id req = .ok (s1, req1, st)) :
+    s1.links = s.links ∨
+    ∃ s0 req' grp pubs cu, s0 = { s with oracle := s0.oracle } ∧ req'.qos = req.qos ∧
+      Router.fdPush s0 id c req' grp pubs cu = .ok (s1, req1, st) ∧ ∀ pc ∈ pubs, Router.StoredP n pc.1 :=
+  Router.forwardDeviceData_pubs_stored h hc hf
+
+/-- the DATA hypothesis `hsrc` of `sweep_forwards_emittable_reachable_partial` from `StoredP`: `StoredOk` when
+    the publish is flagged as having properties or there are no pass-through properties, `FitsForward` from the
+    payload bound `m` and a bound `k` on the encoded length of the pass-through properties -/
+theorem stored_data_hypothesis {m k : Nat} {p : Router.Pub} (h : Router.StoredP (some m) p) {extra : Props}
+    (hx : p.hasProps = true ∨ extra = []) (hk : V5.propListLen extra ≤ k) (hb : 65551 + k + m ≤ remainingLimit) :
+    Router.StoredOk p extra = true ∧ Router.FitsForward p extra :=
+  ⟨h.storedOk hx, h.fitsForward hk hb⟩
+
+/-- C20 (sweep, over runs): in a state reached by a run whose ops are in range with payloads ≤ `m`, every
+    notification a sweep pushes for a subscription of QoS ≤ 2 is `Emittable` for the version the model attributes
+    to the connection, and encodable by that version's codec — no hypothesis about the data is left, except that
+    the pass-through properties `extra` attributed to the publishes of the sweep are well formed, encode to ≤ `k`
+    bytes, and are attributed only to publishes flagged as having properties -/
+theorem sweep_forwards_emittable_of_run {m k : Nat} {cfg : Router.Config} {ops : List (Router.Op × List Router.Choice)}
+    {s s1 : Router.RState} (hok : Router.OpsOkD (some m) ops) (hrun : Router.run (Router.init cfg) ops = .ok s)
+    {id : Nat} {c : Router.Conn} (hc : Router.getConn s id = some c) {req req1 : Router.DataRequest}
+    {st : Router.ConsumeStatus} (hf : Router.forwardDeviceData s id req = .ok (s1, req1, st)) (hq : req.qos ≤ 2)
+    {extra : Props} (hx : extraOk extra = true) (hk : V5.propListLen extra ≤ k)
+    (hb : 65551 + k + m ≤ remainingLimit) :
+    s1.links = s.links ∨
+    ∃ s0 req' grp pubs cu, Router.fdPush s0 id c req' grp pubs cu = .ok (s1, req1, st) ∧
+      ((∀ pc ∈ pubs, pc.1.hasProps = true ∨ extra = []) →
+        ∀ nt ∈ (Router.fdOut c req' pubs).2,
+          Emittable (Router.versionOf c) extra nt = true ∧ encodable (Router.versionOf c) (ofNotif extra nt) = true) := by
+  obtain ⟨hr, hl, _, hco⟩ := Router.inv_of_run hok hrun
+  rcases Router.forwardDeviceData_pubs_stored hl hc hf with h | ⟨s0, req', grp, pubs, cu, _, hq', hp, hst⟩
+  · exact .inl h
+  · refine .inr ⟨s0, req', grp, pubs, cu, hp, fun hprops => ?_⟩
+    exact sweep_forwards_emittable_reachable_partial hr hco hc
+      (fun pc hpc => stored_data_hypothesis (hst pc hpc) (hprops pc hpc) hk hb) hx (by rw [hq']; exact hq)
+
+/-- with no pass-through properties nothing is left but the QoS of the subscription -/
+theorem sweep_forwards_emittable_of_run_plain {m : Nat} {cfg : Router.Config} {ops : List (Router.Op × List Router.Choice)}
+    {s s1 : Router.RState} (hok : Router.OpsOkD (some m) ops) (hrun : Router.run (Router.init cfg) ops = .ok s)
+    {id : Nat} {c : Router.Conn} (hc : Router.getConn s id = some c) {req req1 : Router.DataRequest}
+    {st : Router.ConsumeStatus} (hf : Router.forwardDeviceData s id req = .ok (s1, req1, st)) (hq : req.qos ≤ 2)
+    (hb : 65551 + m ≤ remainingLimit) :
+    s1.links = s.links ∨
+    ∃ s0 req' grp pubs cu, Router.fdPush s0 id c req' grp pubs cu = .ok (s1, req1, st) ∧
+      ∀ nt ∈ (Router.fdOut c req' pubs).2,
+        Emittable (Router.versionOf c) [] nt = true ∧ encodable (Router.versionOf c) (ofNotif [] nt) = true := by
+  rcases sweep_forwards_emittable_of_run (k := 0) (extra := []) hok hrun hc hf hq (by decide) (by decide) (by omega) with h | ⟨s0, req', grp, pubs, cu, hp, h⟩
+  · exact .inl h
+  · exact .inr ⟨s0, req', grp, pubs, cu, hp, h fun _ _ => .inr rfl⟩
+
+/-- non-vacuity (kernel-evaluated): a run whose ops are in range with payloads ≤ 1024 — a CONNECT with a will, a
+    QoS 2 PUBLISH, the DeviceData event — after which the publish is recorded in the connection's ack log and the
+    will is stored; by `stored_in_range_of_run` both are in range. (A publish reaching a filter log or the
+    retained map goes through `String.fromUTF8?`, which the kernel cannot reduce; see the evaluated check below.) -/
+example : ∃ s, Router.run (Router.init ⟨10, 1024, 2, 10, .roundRobin⟩)
+      [(.connect ⟨0, "a", true, false, 0, some ⟨[119], [1], 1, false⟩⟩, []),
+       (.push 0 (.publish ⟨2, 7, false, false, [116], [109], none, [], false⟩), []),
+       (.event 0 .deviceData, [])] = .ok s ∧
+    Router.OpsOkD (some 1024)
+      [(.connect ⟨0, "a", true, false, 0, some ⟨[119], [1], 1, false⟩⟩, []),
+       (.push 0 (.publish ⟨2, 7, false, false, [116], [109], none, [], false⟩), []),
+       (.event 0 .deviceData, [])] ∧
+    (Router.getConn s 0).map (fun c => c.acks.recorded) = some [⟨2, 7, false, false, [116], [109], none, [], false⟩] ∧
+    s.lastWills = [("a", ⟨[119], [1], 1, false⟩)] :=
+  ⟨_, by rw [Router.run_eq_runX]; rfl, by unfold Router.OpsOkD; decide, by decide, by decide⟩
+
+/-- the run stores a publish in a filter log and in the retained map (evaluated, not kernel-checked) -/
+def storeOps : List (Router.Op × List Router.Choice) :=
+  [(.connect ⟨0, "a", true, false, 0, none⟩, []),
+   (.push 0 (.subscribe 1 none [⟨"t", 1⟩]), []), (.event 0 .deviceData, []),
+   (.push 0 (.publish ⟨0, 0, true, false, "t".toUTF8.toList, [109], none, [], false⟩), []),
+   (.event 0 .deviceData, [.matches [0]])]
+
+#guard storeOps.all (fun o => Router.OpOkD (some 1024) o.1)   -- `OpsOkD (some 1024) storeOps`
+#guard match Router.run (Router.init ⟨10, 1024, 2, 10, .roundRobin⟩) storeOps with
+  | .ok s => s.datalog.native.map (fun fd => Router.logItems fd.log) ==
+               [[⟨0, 0, false, false, "t".toUTF8.toList, [109], none, [], false⟩]] &&
+             s.datalog.retained.map (·.2) == [⟨0, 0, true, false, "t".toUTF8.toList, [109], none, [], false⟩]
+  | .error _ => false
 
 end C20
